@@ -13,7 +13,7 @@ def run_selftest(prop):
     vs = selftest.load_variants(prop)
     if not vs:
         return {'variants': 0}
-    rs = selftest.run_variants(prop, vs, verbose=False)
+    rs = selftest.run_variants_parallel(prop, vs)
     out = {'variants': len(rs),
            'caught': sum(1 for r in rs if r['status'] in ('caught', 'caught-elsewhere')),
            'benign_silent': sum(1 for r in rs if r['status'] == 'silent-ok'),
